@@ -274,7 +274,10 @@ Http::One::RequestParser::parseRequestFirstLine()
     // Now, the request line has to end at the first LF.
     static const CharacterSet lineChars = CharacterSet::LF.complement("notLF");
     Tokenizer lineTok(buf_);
-    if (!lineTok.prefix(line, lineChars) || !lineTok.skip('\n')) {
+    const auto foundLine = lineTok.prefix(line, lineChars) && lineTok.skip('\n');
+    // A complete line that is too long is treated like its too-long LF-less
+    // prefix would have been, had the LF arrived in a later read.
+    if (!foundLine || line.length() >= Config.maxRequestHeaderSize) {
         if (buf_.length() >= Config.maxRequestHeaderSize) {
             /* who should we blame for our failure to parse this line? */
 
@@ -345,6 +348,12 @@ Http::One::RequestParser::doParse(const SBuf &aBuf)
     // stage 1: locate the request-line
     if (parsingStage_ == HTTP_PARSE_NONE) {
         skipGarbageLines();
+
+        // A lone CR may be the beginning of a tolerated empty CRLF line. Wait
+        // for the next byte before deciding, so that the outcome does not
+        // depend on how the input was segmented.
+        if (Config.onoff.relaxed_header_parser && buf_.length() == 1 && buf_[0] == '\r')
+            return false;
 
         // if we hit something before EOS treat it as a message
         if (!buf_.isEmpty())
